@@ -1,6 +1,7 @@
 package main
 
 import (
+	"fmt"
 	"regexp"
 	"strings"
 
@@ -77,6 +78,8 @@ func c02Ctx(swapped bool) pongo2.Context {
 	ctx["tf"] = func() string { return m }
 	ctx["tfa"] = func(a string) any { return a + m }
 	ctx["tany"] = any(m)
+	ctx["tfv"] = func() *pongo2.Value { return pongo2.AsValue(m) }
+	ctx["tfva"] = func(a any) *pongo2.Value { return pongo2.AsValue(fmt.Sprint(a) + m) }
 	ctx["tstruct"] = struct {
 		Field string
 		List  []any
@@ -95,7 +98,7 @@ func c02Ctx(swapped bool) pongo2.Context {
 	return ctx
 }
 
-var c02CtxVars = []string{"t1", "t2", "tl", "tm", "ts", "tf()", "tfa(t1)", "tany", "tstruct.Field", "tstruct.List", "tl.0", "tm.a", "z_str", "z_stringer", "z_safevalue"}
+var c02CtxVars = []string{"t1", "t2", "tl", "tm", "ts", "tf()", "tfa(t1)", "tfv()", "tfva(t2)", "tfva(1)", "tany", "tstruct.Field", "tstruct.List", "tl.0", "tm.a", "z_str", "z_stringer", "z_safevalue"}
 
 var c02OptOutFilters = map[string]bool{"safe": true, "truncatechars_html": true, "truncatewords_html": true}
 var c02MarkupFilters = map[string]bool{"urlize": true, "urlizetrunc": true, "linebreaks": true, "linebreaksbr": true}
